@@ -979,6 +979,12 @@ func streamCodec(g *core.G) {
 			for k := r.Intn(3); k > 0; k-- {
 				lines = append(lines, r.Pick(extra))
 			}
+			if r.Chance(1, 10) {
+				// an unknown field named around a word the control package itself spells out
+				if t := r.LitToken("control", "X", ": \t\r\n#,"); t != "" && t[0] != '-' && t[0] != '.' && t[0] != '/' {
+					lines = append(lines, t+": "+r.Pick([]string{"x", "yes", "1", "a, b"}))
+				}
+			}
 			// shuffle lightly
 			if len(lines) > 1 && r.Bool() {
 				a, b := r.Intn(len(lines)), r.Intn(len(lines))
